@@ -355,3 +355,39 @@ def h6_curved_object(ctx, ft, tele):
             ctx.oblige(f'aims_at_pupil_point_{a}', ctx.eq(cr[i], 0.0))
     ctx.oblige('unit', ctx.eq(d[0] * d[0] + d[1] * d[1] + d[2] * d[2], 1.0))
     ctx.observe('z0', z0)
+
+
+@harness('C03', 'H7_negative_fields', funcs=FUNCS, cases=lambda tier: [dict(obj='finite'), dict(obj='inf')],
+         bounds='field list 0, f1, -f2 with 0 < f1 < f2 symbolic (the field of largest magnitude is NEGATIVE); one spherical surface (stop), EPD; '
+                'finite object with height fields / infinite object with angular fields; symbolic Hy',
+         doc='the maximum field that normalises Hy is the largest field MAGNITUDE: the chief ray requested at Hy starts at height Hy x f2 '
+             '(finite object) resp. travels at the angle Hy x f2 (infinite object)')
+def h7_negative_fields(ctx, obj):
+    from optiland.optic import Optic
+    from checks.common import ideal
+    o = Optic()
+    t0 = ctx.real('t0', lo=1.0, hi=500.0) if obj == 'finite' else np.inf
+    o.add_surface(index=0, thickness=t0)
+    o.add_surface(index=1, radius=ctx.real('R1', ne=0), thickness=ctx.real('t1', lo=0.1, hi=100.0), material=ideal(ctx.real('n1', lo=1.0, hi=4.0)), is_stop=True)
+    o.add_surface(index=2)
+    o.set_aperture('EPD', ctx.real('epd', lo=0.05, hi=20.0))
+    o.set_field_type('object_height' if obj == 'finite' else 'angle')
+    f1 = ctx.real('f1', lo=0.1, hi=30.0)
+    f2 = ctx.real('f2', lo=0.1, hi=30.0)
+    ctx.assume(f1 < f2)
+    o.add_field(y=0.0)
+    o.add_field(y=f1)
+    o.add_field(y=-f2)
+    o.add_wavelength(0.55, is_primary=True)
+    Hy = ctx.real('Hy', lo=-1.0, hi=1.0)
+    ctx.oblige('max_field_is_largest_magnitude', ctx.eq(o.fields.max_field, f2))
+    rays = o.ray_generator.generate_rays(0.0, Hy, ctx.arr(0.0), ctx.arr(0.0), 0.55)
+    y0, z0 = ctx.val(rays.y), ctx.val(rays.z)
+    M, N = ctx.val(rays.M), ctx.val(rays.N)
+    if not all(ctx.finite(v) for v in (y0, z0, M, N)):
+        return
+    if obj == 'finite':
+        ctx.oblige('origin_y', ctx.eq(y0, Hy * f2))
+    else:
+        ctx.oblige('field_angle', ctx.eq(M, ctx.tan(Hy * f2 * (math.pi / 180.0)) * N))
+    ctx.observe('y0', y0)
